@@ -656,6 +656,17 @@ theorem JI_step {j : JState} {seen off : List Nat} (h : JI j seen off) (e : Ev)
     split
     · rename_i hc; rw [if_pos hc] at hacc; exact absurd hacc (flagV_bad_ne rfl)
     · exact ⟨h.nodup, h.hseen, h.hoff, h.exp⟩
+  | passLimit =>
+    refine ⟨rfl, rfl, ?_⟩
+    simp only [judge1] at hacc ⊢
+    split
+    · rename_i hc; rw [if_pos hc] at hacc; exact absurd hacc (flagV_bad_ne rfl)
+    · exact ⟨h.nodup, h.hseen, h.hoff, h.exp⟩
+  | cgAfter v =>
+    refine ⟨rfl, rfl, ?_⟩
+    cases v with
+    | none => exact h
+    | some o => exact absurd hacc (flagV_bad_ne rfl)
   | junk s => exact absurd hacc (flagV_bad_ne rfl)
 
 theorem advance_bad (j : JState) : (advance j).bad = j.bad := by
@@ -769,6 +780,11 @@ theorem judge1_bad (j : JState) (e : Ev) : (judge1 j e).bad = j.bad ∨ ∃ v, (
   | rp o => exact Or.inl rfl
   | rpNone o => exact Or.inl rfl
   | rpDone o => simp only [judge1]; split <;> first | exact Or.inl rfl | exact Or.inr ⟨_, rfl⟩
+  | passLimit => simp only [judge1]; split <;> first | exact Or.inl rfl | exact Or.inr ⟨_, rfl⟩
+  | cgAfter v =>
+    cases v with
+    | none => exact Or.inl rfl
+    | some o => exact Or.inr ⟨_, rfl⟩
   | junk s => exact Or.inr ⟨_, rfl⟩
 
 theorem foldl_bad_length (tr : List Ev) : ∀ j : JState, j.bad.length ≤ (tr.foldl judge1 j).bad.length := by
@@ -1046,6 +1062,8 @@ theorem quiet_step (j : JState) (e : Ev) (hq : quietExp j.expect = true) (hnt : 
   | rp o => exact hq
   | rpNone o => exact hq
   | rpDone o => simp only [judge1]; split <;> exact hq
+  | passLimit => simp only [judge1]; split <;> exact hq
+  | cgAfter v => cases v <;> exact hq
   | junk s => exact hq
 
 /-- every accepted trace is quiet in the ticks that run without TIMER_FLAG_HEARTBEAT -/
